@@ -1,0 +1,11 @@
+//go:build verif
+
+package client
+
+import "time"
+
+// verifScanTick makes the manager's periodic rescan (normally once a minute)
+// fire every 200ms so that verification runs can wait for quiescence.
+func verifScanTick() <-chan time.Time {
+	return time.After(200 * time.Millisecond)
+}
